@@ -8,6 +8,12 @@ require (
 	google.golang.org/protobuf v1.36.11
 )
 
-require golang.org/x/sys v0.43.0 // indirect
+require (
+	github.com/eknkc/basex v1.0.1 // indirect
+	github.com/mutagen-io/gopass v0.0.0-20230214181532-d4b7cdfe054c // indirect
+	go.yaml.in/yaml/v4 v4.0.0-rc.4 // indirect
+	golang.org/x/sys v0.43.0 // indirect
+	golang.org/x/term v0.42.0 // indirect
+)
 
 replace github.com/mutagen-io/mutagen => /repo
